@@ -4,6 +4,11 @@ import json, os
 HERE = os.path.dirname(os.path.abspath(__file__))
 
 CLAIMED = {
+ 'C07': dict(
+   text='Decides five named UB shapes on the resolved program, each a genuine way the property fails: internal spanner descriptors escaping to the caller (world inference), reference members bound to dying non-empty temporaries at every direct/emplace/make_shared construction site, NUL stores into the fgets buffer that can hit buffer[-1] and unbounded %s conversions, dereference of end(), and unchecked v[i] in blocked_range task bodies whose range bound is not tied to the container size. General absence of out-of-bounds accesses, overflow, leaks and uninitialised reads is NOT claimed: no sound static argument in reach bounds the indices and integer ranges of the Dijkstra/heap/BFS loops.',
+   note='Partial by design; temporaries of empty classes bound to reference members are reported as info only (no execution can observe them).',
+   technique='escape analysis via world inference; lifetime rule over construction sites; guarded-store rule on the CFG; container/range agreement with inter-procedural fill-site tracing',
+   ref='DESIGN.md §4 C07'),
  'C05': dict(
    text='A two-world affinity inference (caller graph G vs internal spanner S: same C++ type, different ownership) over all instantiated approximate algorithms decides that nothing reaching the caller\'s output iterator is a descriptor of S, that every weight term of the returned value is read through the caller\'s map for the emitted edge, that each spanner edge gets the input weight and a translation-table entry on the path that adds it, that the table is read with at()/find, that every BGL call pairs descriptors with their own graph, and that the exact phase is skipped only for (m, n) for which every simple graph is a forest. These are the structural ways the descriptor/weight clauses can fail; that the cycles form a basis is value-level and not claimed.',
    note='Flow-insensitive per variable, inter-procedural over the approx classes; BGL accessor semantics and the summary "exact entry points emit only descriptors of their graph argument" are trusted. Number and independence of cycles are not decided.',
